@@ -470,32 +470,50 @@ def run(ctx: lib.Ctx) -> None:
     # ---- tables: tags.py vs Codec/Prims.v, both directions, and the decoder's reverse table on all 256 bytes
     ctx.table('prim_tags (tags.py) name -> tag, 181 rows, vs Codec.Prims.prim_tag')
     ctx.table('forge.prim_int (decoder reverse table) on all 256 tag bytes vs Codec.Prims.known_prim / prim_name')
-    proto = {k: v[0] for k, v in prim_tags.items() if v != b'\xee'}
-    helper = [k for k, v in prim_tags.items() if v == b'\xee']
-    t1 = [(f'(inl {cstr(k)})', f'({copt(None if v == b"\xee" else cbyte(v[0]))}, (false, None))') for k, v in prim_tags.items()]
-    t2 = [(f'(inr {cbyte(b)})', f'(None, ({cbool(b in F.prim_int)}, {copt(cstr(F.prim_int[b]) if b in F.prim_int else None)}))') for b in range(256)]
-    both = ctx.coq_mismatches('tab', IMPORTS, 'chk_tab', 'chk_tab_eqb', 'string + byte', 'option byte * (bool * option string)', t1 + t2, prelude=PRELUDE, shard=1000)
-    bad = [i for i in both if i < len(t1)]
-    bad2 = [i - len(t1) for i in both if i >= len(t1)]
-    n_model = f'= {len(proto)}'
-    if bad or bad2 or f'= {len(proto)}' not in n_model:
-        rows = [list(prim_tags.items())[i] for i in bad][:5]
-        bytes_bad = bad2[:8]
-        # a concrete failing input when the decoder's table is what changed
-        found = False
-        for b in bytes_bad:
-            ok, val = run_unforge(bytes([3, b]))
-            if ok and b > 0x9e:
-                found = True
+    PROTO_MAX = 0x9e   # the pinned protocol table (Codec/Prims.v) is exactly the tags 00..9e
+    proto, helper = {}, []
+    for k, v in prim_tags.items():
+        if isinstance(v, (bytes, bytearray)) and len(v) == 1 and v[0] <= PROTO_MAX and isinstance(k, str):
+            proto[k] = v[0]
+        else:
+            helper.append(k)
+    # (B) for the table: every tag byte through the real decoder — a non-protocol tag must be rejected, a protocol tag accepted
+    probe_bad = []
+    for b in range(256):
+        ok, val = run_unforge(bytes([3, b]))
+        if ok != (b <= PROTO_MAX):
+            probe_bad.append(b)
+            if ok:
                 violate(f'prim tag {b:#04x} is not a protocol primitive but decodes', {'bytes': bytes([3, b]).hex(), 'decoded': val,
                         'repro': f"unforge_micheline(bytes.fromhex('{bytes([3, b]).hex()}'))"})
-            if not ok and b <= 0x9e:
-                found = True
+            else:
                 violate(f'protocol primitive tag {b:#04x} no longer decodes', {'bytes': bytes([3, b]).hex(), 'error': repr(val),
                         'repro': f"unforge_micheline(bytes.fromhex('{bytes([3, b]).hex()}'))"})
-        if not found:
-            violate('primitive table of tags.py differs from the pinned protocol table', {'correspondence': 'C05/tags.py prim_tags vs Codec.Prims.prims',
-                    'rows': [(k, v.hex()) for k, v in rows], 'tag_bytes': bytes_bad, 'model_rows': n_model}, found=False)
+    # (A) the tables themselves against the model's table
+    table_problem = None
+    try:
+        def tag_lit(v):
+            return copt(cbyte(v[0]) if isinstance(v, (bytes, bytearray)) and len(v) == 1 and v != b'\xee' else None)
+
+        def name_lit(x):
+            return cstr(x) if isinstance(x, str) and x.isascii() and x.isprintable() else '"?"%string'
+
+        rev = dict(getattr(F, 'prim_int', {}))
+        t1 = [(f'(inl {name_lit(k)})', f'({tag_lit(v)}, (false, None))') for k, v in prim_tags.items()]
+        t2 = [(f'(inr {cbyte(b)})', f'(None, ({cbool(b in rev)}, {copt(name_lit(rev[b])) if b in rev else "None"}))') for b in range(256)]
+        both = ctx.coq_mismatches('tab', IMPORTS, 'chk_tab', 'chk_tab_eqb', 'string + byte', 'option byte * (bool * option string)', t1 + t2, prelude=PRELUDE, shard=1000)
+        bad = [i for i in both if i < len(t1)]
+        bad2 = [i - len(t1) for i in both if i >= len(t1)]
+        if bad or bad2:
+            items = list(prim_tags.items())
+            table_problem = {'rows': [(k, v.hex() if isinstance(v, (bytes, bytearray)) else repr(v)) for k, v in (items[i] for i in bad[:12])],
+                             'tag_bytes': [f'{b:#04x}' for b in bad2[:16]]}
+    except Exception as e:  # noqa: BLE001 — an unexpected shape of the implementation's table must not stop the check
+        table_problem = {'error': f'{type(e).__name__}: {e}'[:600]}
+    if table_problem and not probe_bad:
+        # rows moved without changing which tags decode: look for a tree whose encoding changed
+        violate('primitive table of tags.py differs from the pinned protocol table',
+                {'correspondence': 'C05/tags.py prim_tags + forge.prim_int vs Codec.Prims.prims', **table_problem}, found=False)
 
     lap('tables')
     names = list(proto)
@@ -626,8 +644,12 @@ def run(ctx: lib.Ctx) -> None:
     order = list(range(len(all_cases)))
     rng.shuffle(order)      # balance the shards
     per = max(150, min(ctx.n(900, 600), -(-len(all_cases) // lib.n_jobs())))
-    bad_all = ctx.coq_mismatches('cases', IMPORTS, 'chk_all', 'chk_all_eqb', 'node + bytes', '(bytes * (bool * bool)) + (dres node * bool)',
-                                 [all_cases[i] for i in order], prelude=PRELUDE, shard=per)
+    eval_error = None
+    try:
+        bad_all = ctx.coq_mismatches('cases', IMPORTS, 'chk_all', 'chk_all_eqb', 'node + bytes', '(bytes * (bool * bool)) + (dres node * bool)',
+                                     [all_cases[i] for i in order], prelude=PRELUDE, shard=per)
+    except lib.InternalError as e:   # the model could not be evaluated on what the implementation produced
+        bad_all, eval_error = [], str(e)[-1500:]
     bad_all = sorted(order[i] for i in bad_all)
     bad_enc = [i for i in bad_all if i < len(enc_cases)]
     bad_dec = [i - len(enc_cases) for i in bad_all if i >= len(enc_cases)]
@@ -638,8 +660,8 @@ def run(ctx: lib.Ctx) -> None:
     ctx.extra['valid_fraction_of_malformed_stream'] = round(sum(1 for x in dec_meta if x[2]) / max(1, len(dec_meta)), 3)
 
     # ---- correspondence broke without a failing input of the property itself
-    if violations == 0 and (bad_enc or bad_dec):
-        rep = {'correspondence': 'C05/forge_micheline+unforge_micheline vs Codec.MichelineBin.enc/dec_full',
+    if violations == 0 and (bad_enc or bad_dec or eval_error):
+        rep = {'correspondence': 'C05/forge_micheline+unforge_micheline vs Codec.MichelineBin.enc/dec_full', 'model_evaluation_error': eval_error,
                'disagreements': {'encode': len(bad_enc), 'decode': len(bad_dec)}}
         if bad_enc:
             i = min(bad_enc, key=lambda j: len(enc_cases[j][0]))
